@@ -231,6 +231,10 @@ func c07Body(e *Env) {
 	}
 	frng := e.Rng("c07fault")
 	var held *Op
+	// writes queued by a Flush of a rolled back transaction may still sit in the
+	// writer's queue: a fault armed for a commit could hit one of them instead of
+	// a write of that commit (then it is reported by a later commit, see C08)
+	staleFlush, txFlushed := false, false
 	next := func() (Op, bool) {
 		if explicit != nil {
 			if len(explicit) == 0 {
@@ -246,7 +250,7 @@ func c07Body(e *Env) {
 			return op, true
 		}
 		op := g.Next()
-		if a.InTx() && op.K == "commit" && frng.Intn(6) == 0 {
+		if a.InTx() && op.K == "commit" && !staleFlush && frng.Intn(6) == 0 {
 			// a write failure inside this Commit: the transaction fails and must leave
 			// no trace, like any other aborted transaction. (Not armed before
 			// Tx.Flush + Rollback: the engine reports an asynchronous write error of
@@ -290,6 +294,10 @@ func c07Body(e *Env) {
 		if op.K == "begin" {
 			txOps = txOps[:0]
 			outStart = len(a.Outcome)
+			txFlushed = false
+		}
+		if op.K == "pflush" || op.K == "txflush" {
+			txFlushed = true
 		}
 		// probes about the transaction body
 		wasNewFreed := false
@@ -343,6 +351,11 @@ func c07Body(e *Env) {
 				firedBefore = a.D.Fired[simdisk.FWriteErr] + a.D.Fired[simdisk.FWriteShort]
 				a.D.ClearFaults()
 				a.Faulty, armed = false, false
+			}
+			if len(a.Hist) > commitsBefore {
+				staleFlush = false
+			} else if txFlushed && op.K != "commit" {
+				staleFlush = true
 			}
 			if faultFired && len(a.Hist) == commitsBefore {
 				e.Probe("aborted_by_write_fault")
